@@ -12,16 +12,32 @@
     churn: (2 paths steps): Remoting/Churn.v on a script of spawn / kill / restart steps of the receiving system
       interleaved with the reads of ONE connection (each traffic step starts at a frame boundary); output: the
       connection's counters as for run_frame, then per path the deliveries (incarnation, epoch, message) and the
-      dead letters, in order. *)
+      dead letters, in order.
+    run_frame / run_link with a trailing [refs] element ((0 conns refs), (1 limit first msgs conns refs)): a table
+      (address, path, accepted?) of what actor.NewRef answered for the reference strings of INJECTED envelopes; a
+      decoded frame whose sender or receiver reference NewRef rejects counts as decoded (RemotingMessageReceivedEvent)
+      but is not delivered (HandleRemotingEnvelop returns an error), and the reader goes on.  Pairs that are not
+      listed are accepted (what two vivid systems send each other always is).
+    backoff: (4 cfg ops): Remoting/Backoff.v's object on a list of Next(draw) / Reset / GetAttempt calls from a new
+      object; (5 cfg limit outs elapsed draw): one Try on a new object with the scripted outcomes of fn (and the random
+      integers of the Next() calls in between), then one more Next(draw): (returned abort err seen #sleeps
+      elapsed>=sum-of-sleeps? attempt-after next-delay); (7 which): the configuration of the object vivid constructs
+      for a remote mailbox (0) / the server actor (1); (8 cfg ks delays): is every delay in the interval of its attempt?
+      (9 cfg n elapsed): elapsed >= sum of the lower interval ends of the attempts 0 .. n-1?
+    accept: (10 events): Remoting/Accept.v on a history of accepted connections (0 peer frames-written), kernel connection gone (1 peer),
+      reader actor ended (2 peer): per connection (written, read).
+    central: (6 addrs): Remoting/Central.v's table on a list of GetOrCreate calls: the mailbox index each returns. *)
 From Coq Require Import List NArith ZArith Bool.
-From Vivid Require Import Base.Tm Codec.Prim Remoting.Frame Remoting.Link Remoting.Churn.
+From Vivid Require Import Base.Tm Codec.Prim Remoting.Frame Remoting.Link Remoting.Churn Remoting.Backoff.
+From Vivid Require Remoting.Central Remoting.Accept.
 Import ListNotations.
 Local Open Scope N_scope.
 
 (** the harness codec (harness/cmd/remoting/sys.go xcodec): 'V' 'X' kind sender(4) seq(8) data *)
 Definition cksum (b : bytes) : N := fold_left (fun a x => (a * 31 + x) mod 4294967291) b 0.
 
-Record hmsg : Type := { h_rpath : bytes; h_kind : N; h_sender : N; h_seq : N; h_len : N; h_sum : N }.
+Record hmsg : Type := { h_rpath : bytes; h_kind : N; h_sender : N; h_seq : N; h_len : N; h_sum : N;
+                        h_saddr : bytes; h_spath : bytes; h_raddr : bytes }.
 
 Definition hdec (body : bytes) : option hmsg :=
   match env_parse body with
@@ -34,7 +50,8 @@ Definition hdec (body : bytes) : option hmsg :=
               match take_n 8 r1 with
               | Ok (sq, data) =>
                   Some {| h_rpath := e_rpath e; h_kind := k; h_sender := unbe sd; h_seq := unbe sq;
-                          h_len := N.of_nat (length data); h_sum := cksum data |}
+                          h_len := N.of_nat (length data); h_sum := cksum data;
+                          h_saddr := e_saddr e; h_spath := e_spath e; h_raddr := e_raddr e |}
               | Err _ => None
               end
           | Err _ => None
@@ -52,13 +69,24 @@ Definition t_hmsg (m : hmsg) : tm := TL [TN (h_kind m); TN (h_sender m); TN (h_s
 Record obs : Type := { o_dl : list tm; o_dec : N; o_df : list tm; o_ov : list tm; o_bad : bool }.
 Definition obs0 : obs := {| o_dl := []; o_dec := 0; o_df := []; o_ov := []; o_bad := false |}.
 
-Fixpoint observe (evs : list (rev hmsg)) (o : obs) : obs :=
+(** what actor.NewRef answered for (address, path); unlisted pairs are accepted *)
+Notation reftab := (list (bytes * bytes * bool)).
+Fixpoint ref_ok (t : reftab) (a p : bytes) : bool :=
+  match t with
+  | [] => true
+  | (a', p', ok) :: r => if bytes_eqb a' a && bytes_eqb p' p then ok else ref_ok r a p
+  end.
+(** System.HandleRemotingEnvelop returns nil: both references are rebuilt *)
+Definition routable (t : reftab) (m : hmsg) : bool :=
+  ref_ok t (h_saddr m) (h_spath m) && ref_ok t (h_raddr m) (h_rpath m).
+
+Fixpoint observe_t (t : reftab) (evs : list (rev hmsg)) (o : obs) : obs :=
   match evs with
   | [] => o
   | e :: r =>
-      observe r
+      observe_t t r
         match e with
-        | RMsg m => {| o_dl := if bytes_eqb (h_rpath m) recv_path then o_dl o ++ [t_hmsg m] else o_dl o;
+        | RMsg m => {| o_dl := if routable t m && bytes_eqb (h_rpath m) recv_path then o_dl o ++ [t_hmsg m] else o_dl o;
                        o_dec := o_dec o + 1; o_df := o_df o; o_ov := o_ov o; o_bad := o_bad o |}
         | RDecodeFail n => {| o_dl := o_dl o; o_dec := o_dec o; o_df := o_df o ++ [TN n]; o_ov := o_ov o; o_bad := o_bad o |}
         | ROversize n => {| o_dl := o_dl o; o_dec := o_dec o; o_df := o_df o; o_ov := o_ov o ++ [TN n]; o_bad := o_bad o |}
@@ -66,17 +94,25 @@ Fixpoint observe (evs : list (rev hmsg)) (o : obs) : obs :=
         | _ => o
         end
   end.
+Definition observe := observe_t [].
 
 Definition get_conn (t : tm) : option (bool * list bytes) := get_pair get_bool (get_list get_b) t.
 
-Definition observe_conn (o : obs) (c : bool * list bytes) : obs :=
+Definition observe_conn_t (t : reftab) (o : obs) (c : bool * list bytes) : obs :=
   let (whole, chunks) := c in
   if whole then
     match conn_receive hdec chunks with
     | CNoHandshake => o
-    | CConn _ evs => observe evs o
+    | CConn _ evs => observe_t t evs o
     end
-  else observe (receive hdec chunks) o.
+  else observe_t t (receive hdec chunks) o.
+Definition observe_conn := observe_conn_t [].
+
+Definition get_ref (t : tm) : option (bytes * bytes * bool) :=
+  match t with
+  | TL [TB a; TB p; ok] => match get_bool ok with Some b => Some (a, p, b) | None => None end
+  | _ => None
+  end.
 
 Definition t_obs (o : obs) : tm :=
   if o_bad o then tm_err 7 else TL [TL (o_dl o); TN (o_dec o); TL (o_df o); TL (o_ov o)].
@@ -150,6 +186,46 @@ Definition t_churn_path (os : list (@outcome hmsg)) (p : bytes) : tm :=
   TL [TL (map (fun x : inst * hmsg => TL [TN (i_inc (fst x)); TN (i_epoch (fst x)); t_hmsg (snd x)]) (delivered_at p os));
       TL (map t_hmsg (dead_at p os))].
 
+(** ---- back-off (Remoting/Backoff.v) ---- *)
+Definition get_cfg (t : tm) : option bo_cfg :=
+  match t with
+  | TL [TN i; TN m; j] => match get_bool j with
+                          | Some b => Some {| bo_init := Z.of_N i; bo_max := Z.of_N m; bo_jitter := b |}
+                          | None => None
+                          end
+  | _ => None
+  end.
+Definition get_bo_op (t : tm) : option bo_op :=
+  match t with
+  | TL [TN 0; TN r] => Some (BNext (Z.of_N r))
+  | TL [TN 1] => Some BReset
+  | TL [TN 2] => Some BGet
+  | _ => None
+  end.
+Definition t_bo_res (r : bo_res) : tm :=
+  match r with
+  | RDelay d => TN (Z.to_N d)
+  | RUnit => TL []
+  | RAttempt k => TL [TN k]
+  end.
+Definition get_fn_out (t : tm) : option fn_out :=
+  match t with
+  | TL [a; e; TN r] => match get_bool a, get_bool e with
+                       | Some a, Some e => Some {| fo_abort := a; fo_err := e; fo_draw := Z.of_N r |}
+                       | _, _ => None
+                       end
+  | _ => None
+  end.
+
+(** ---- reader actors of accepted connections (Remoting/Accept.v) ---- *)
+Definition get_aev (t : tm) : option Accept.aev :=
+  match t with
+  | TL [TN 0; TB p; TN n] => Some (Accept.AAccept p n)
+  | TL [TN 1; TB p] => Some (Accept.AGone p)
+  | TL [TN 2; TB p] => Some (Accept.AReaderEnd p)
+  | _ => None
+  end.
+
 Definition run_remoting (t : tm) : tm :=
   match t with
   | TL [TN 0; conns] =>
@@ -183,6 +259,62 @@ Definition run_remoting (t : tm) : tm :=
       match get_list get_b paths, get_list get_step steps with
       | Some ps, Some ss => TL (map (t_churn_path (run_churn hdec h_rpath ss [])) ps)
       | _, _ => tm_err 1
+      end
+  | TL [TN 0; conns; refs] =>
+      match get_list get_conn conns, get_list get_ref refs with
+      | Some cs, Some rt => t_obs (fold_left (observe_conn_t rt) cs obs0)
+      | _, _ => tm_err 1
+      end
+  | TL [TN 1; TN limit; first; calls; conns; refs] =>
+      match get_optn first, get_list get_call calls, get_list get_conn conns, get_list get_ref refs with
+      | Some first, Some calls, Some cs, Some rt =>
+          let s0 := match first with
+                    | None => init
+                    | Some cap => {| cur := Some {| c_cap := Some cap; c_wire := [] |}; old := []; attempt := 0; dead := []; trace := [] |}
+                    end in
+          let (ts, s) := run_calls limit calls s0 in
+          TL [TL ts; TL (map (fun w => TN (N.of_nat (length w))) (wires s)); t_obs (fold_left (observe_conn_t rt) cs obs0)]
+      | _, _, _, _ => tm_err 1
+      end
+  | TL [TN 4; cfg; ops] =>
+      match get_cfg cfg, get_list get_bo_op ops with
+      | Some c, Some os => TL (map t_bo_res (snd (bo_run c 0 os)))
+      | _, _ => tm_err 1
+      end
+  | TL [TN 5; cfg; limit; outs; TN elapsed; TN draw] =>
+      match get_cfg cfg, get_z limit, get_list get_fn_out outs with
+      | Some c, Some l, Some os =>
+          let t := bo_try c l os 0 in
+          TL [tbool (tr_returned t); tbool (tr_abort t); tbool (tr_err t); TL (map TN (tr_seen t));
+              TN (N.of_nat (length (tr_sleeps t))); tbool (sum_z (tr_sleeps t) <=? Z.of_N elapsed)%Z;
+              TN (tr_after t); TN (Z.to_N (bo_next c (tr_after t) (Z.of_N draw)))]
+      | _, _, _ => tm_err 1
+      end
+  | TL [TN 6; addrs] =>
+      match get_list get_b addrs with
+      | Some l => TL (map (fun i => TN (N.of_nat i)) (Central.central_ids bytes_eqb l []))
+      | None => tm_err 1
+      end
+  | TL [TN 7; TN which] =>
+      let c := if which =? 0 then mailbox_cfg else server_cfg in
+      TL [TN (Z.to_N (bo_init c)); TN (Z.to_N (bo_max c)); TN 2; tbool (bo_jitter c)]
+  | TL [TN 8; cfg; ks; ds] =>
+      match get_cfg cfg, get_list get_n ks, get_list get_n ds with
+      | Some c, Some ks, Some ds =>
+          TL (map (fun kd : N * N => tbool ((bo_lo c (fst kd) <=? Z.of_N (snd kd))%Z && (Z.of_N (snd kd) <=? bo_hi c (fst kd))%Z)) (combine ks ds))
+      | _, _, _ => tm_err 1
+      end
+  | TL [TN 10; evs] =>
+      (* Remoting/Accept.v: per accepted connection (frames written by the dialler, frames read by the receiving system) *)
+      match get_list get_aev evs with
+      | Some l => TL (map (fun x : bytes * N * N => TL [TN (snd (fst x)); TN (snd x)]) (Accept.accept_run l []))
+      | None => tm_err 1
+      end
+  | TL [TN 9; cfg; TN n; TN elapsed] =>
+      (* a call that slept for the attempts 0 .. n-1 cannot have taken less than the sum of the lower interval ends *)
+      match get_cfg cfg with
+      | Some c => tbool (sum_lo c 0 (N.to_nat n) <=? Z.of_N elapsed)%Z
+      | None => tm_err 1
       end
   | _ => tm_err 0
   end.
